@@ -30,7 +30,10 @@ Q = ("entry (|D| [D offset] [D label] [D ?haschildren] [D parent offset] [D unit
 # the raw view is still the raw view after a step of navigation: what `parent`, `child` and `unit root` yield
 # lists its attributes and children as stored (nothing integrated, no import inlined)
 Q2 = ("entry (|D| [D offset] [D parent attribute label] [D parent child offset] [D child (pos == 0) attribute label] "
-      "[D child (pos == 0) parent offset] [D unit root child offset] [D parent] [D child (pos == 0)])")
+      "[D child (pos == 0) parent offset] [D unit root child offset] [D parent] [D child (pos == 0)] "
+      "[D root, D unit root])")
+# (the DIE that `value` yields for a reference attribute of a raw DIE is a cooked one today; no listed property
+# says which it should be, so that is noted in DESIGN.md and not judged)
 
 
 def depth_of(d):
@@ -116,7 +119,7 @@ def check_forest(drv, ev, f, data, labels, via_word):
                 else:
                     ev.label("navigation-stays-raw")
                     for row, d in zip(r2["res"], exp):
-                        off, pal, pch, cal, cpo, urc, pv, cv = row[-8:]
+                        off, pal, pch, cal, cpo, urc, pv, cv, others = row[-9:]
                         par, kid = d.parent, (d.children[0] if d.children else None)
                         want = {"parent attribute": [a.name for a in par.attrs] if par else [], "parent child": [c.offset for c in par.children] if par else [],
                                 "child attribute": [a.name for a in kid.attrs] if kid else [], "child parent": [d.offset] if kid else [],
@@ -127,7 +130,7 @@ def check_forest(drv, ev, f, data, labels, via_word):
                             k = [k for k in want if got[k] != want[k]][0]
                             bad = "raw DIE %#x: `%s` lists %r, stored %r" % (d.offset, k, got[k][:12], want[k][:12])
                             break
-                        for what, seq in (("parent", pv), ("child", cv)):
+                        for what, seq in (("parent", pv), ("child", cv), ("root / unit root", others)):
                             if any(not e.get("raw") or e.get("imp") for e in seq["e"]):
                                 bad = "raw DIE %#x: `%s` yields a DIE that is not raw: %r" % (d.offset, what, seq["e"][:1])
                                 break
